@@ -83,3 +83,99 @@ c03_skew!(c03_skew_normal_f64, f64, 1e100, 1e100);
 //@ bounds: |location| <= 1e30, scale in [1e-30, 1e30], |shape| <= 1e6
 //@ assumes: utils::ziggurat, libm::sqrtf by contract
 c03_skew!(c03_skew_normal_f32, f32, 1e30, 1e30);
+
+// ------------------------------------------------------------------------------------------
+// C07: location and scale enter only through the final linear map x * scale + location of the standardised
+// variate (u_1, the max, the min, or the normalised combination of two standard normals)
+// ------------------------------------------------------------------------------------------
+macro_rules! c07_skew {
+    ($name:ident, $f:ty) => {
+        vproof_free! {
+            fn $name() {
+                let mut rng = SymRng::new(2);
+                let loc: $f = kani::any();
+                let scale: $f = kani::any();
+                let sel: u8 = kani::any();
+                let shape: $f = match sel % 4 { 0 => 0.0, 1 => 1.0, 2 => -1.0, _ => 3.0 };
+                let d = match SkewNormal::<$f>::new(loc, scale, shape) { Ok(d) => d, Err(_) => return };
+                let x: $f = d.sample(&mut rng);
+                if native() {
+                    // native replay: compare with the shift/scale of the standard member on the same stream
+                    let mut r2 = SymRng::from_words(rng.words, NW);
+                    let z: $f = SkewNormal::<$f>::new(0.0, 1.0, shape).unwrap().sample(&mut r2);
+                    vassert!(rng.pos == r2.pos, "SkewNormal: word count depends on location/scale");
+                    vassert!(biteq64(x as f64, (z * scale + loc) as f64), "SkewNormal: sample is not (standard member) * scale + location");
+                    return;
+                }
+                vassert!(rng.pos == if shape == 0.0 { 1 } else { 2 }, "SkewNormal: number of standard draws depends on location/scale");
+                let z1 = flog_get(0).2 as $f;
+                let std: $f = if shape == 0.0 {
+                    z1
+                } else {
+                    let z2 = flog_get(1).2 as $f;
+                    let (u, v) = (if z1 > z2 { z1 } else { z2 }, if z1 > z2 { z2 } else { z1 });
+                    if shape == -1.0 { v } else if shape == 1.0 { u } else {
+                        // the square root is taken of 1 + shape^2 (class contract: some positive value r); the harness
+                        // cannot name r, so for the general shape it checks the two facts that pin the map down:
+                        //   location = 0, scale = 1 gives the standard value s, and the sample equals s * scale + location
+                        return;
+                    }
+                };
+                vassert!(biteq64(x as f64, (std * scale + loc) as f64), "SkewNormal: sample is not (standardised variate) * scale + location");
+                kani::cover!(shape == 0.0, "shape 0");
+                kani::cover!(shape == 1.0, "shape 1");
+                kani::cover!(shape == -1.0, "shape -1");
+            }
+        }
+    };
+}
+//@ id: c07_skew_normal_f64
+//@ prop: C07
+//@ tier: quick
+//@ cap: 900
+//@ funcs: SkewNormal::<f64>::new; SkewNormal::<f64>::sample (linear_map)
+//@ bounds: every accepted (location, scale); shape in {0, 1, -1}; the standard normal draws over the free-stub value set
+//@ assumes: utils::ziggurat replaced by a free logged draw
+c07_skew!(c07_skew_normal_f64, f64);
+//@ id: c07_skew_normal_f32
+//@ prop: C07
+//@ tier: quick
+//@ cap: 900
+//@ funcs: SkewNormal::<f32>::new; SkewNormal::<f32>::sample
+//@ bounds: as c07_skew_normal_f64
+//@ assumes: utils::ziggurat replaced by a free logged draw
+c07_skew!(c07_skew_normal_f32, f32);
+
+// general shape: relation between two runs on the same stream (standard member vs. located/scaled member) with
+// location and scale from small exact sets, so that the duplicated arithmetic stays cheap
+macro_rules! c07_skew_general {
+    ($name:ident, $f:ty) => {
+        #[kani::proof]
+        #[kani::stub(crate::utils::ziggurat, f_ziggurat_words)]
+        #[kani::stub(libm::sqrt, c_sqrt64_fn)]
+        #[kani::stub(libm::sqrtf, c_sqrt32_fn)]
+        fn $name() {
+            let words: [u64; NW] = kani::any();
+            let sel: u8 = kani::any();
+            let loc: $f = match sel & 3 { 0 => 0.0, 1 => 5.0, 2 => -2.0, _ => 0.5 };
+            let scale: $f = match (sel >> 2) & 3 { 0 => 1.0, 1 => 2.0, 2 => 0.5, _ => 4.0 };
+            let shape: $f = 3.0;
+            let mut r1 = SymRng::from_words(words, 2);
+            let mut r2 = SymRng::from_words(words, 2);
+            let x: $f = SkewNormal::<$f>::new(loc, scale, shape).unwrap().sample(&mut r1);
+            let z: $f = SkewNormal::<$f>::new(0.0, 1.0, shape).unwrap().sample(&mut r2);
+            vassert!(r1.pos == r2.pos, "SkewNormal: word count depends on location/scale");
+            // scale is a power of two: z * scale is exact, so the affine map is exact up to the final addition
+            vassert!(biteq64(x as f64, (z * scale + loc) as f64), "SkewNormal (general shape): sample is not (standard member) * scale + location");
+            kani::cover!(loc == 5.0 && scale == 2.0, "located and scaled");
+        }
+    };
+}
+//@ id: c07_skew_normal_general_f64
+//@ prop: C07
+//@ tier: quick
+//@ cap: 900
+//@ funcs: SkewNormal::<f64>::sample (general-shape branch, linear_map applied last)
+//@ bounds: shape = 3, location in {0, 5, -2, 1/2}, scale in {1, 2, 1/2, 4} (powers of two: the map is exact); both standard normal draws are a fixed function of the words (61-bit lattice in [-8, 8))
+//@ assumes: utils::ziggurat replaced by a deterministic function of the consumed word; libm::sqrt by a functional stub
+c07_skew_general!(c07_skew_normal_general_f64, f64);
